@@ -4,6 +4,7 @@ import Np.Proofs.Gather
 import Np.Proofs.ShapeFns
 import Np.Proofs.IndexFns
 import Np.Proofs.SelectFns
+import Np.Proofs.AdvIndexFns
 /-! C09 — shape functions and indexing move whole polynomial elements like numpy: property theorems, for *every*
 index map (hence every shape, axis, index or section argument numpy accepts) -/
 namespace Np.Props.C09
@@ -266,5 +267,47 @@ theorem vstack_reads {shapes : List (List Nat)} {out : List Nat} {idx : List (Na
 theorem hstack_is_concatenate (shapes : List (List Nat)) :
     hstackF shapes = concatF (shapes.map atleast1d) (hstackAxis shapes) := hstackF_eq shapes
 end indexfns
+
+/-! ### integer-array ("advanced") indexing, `take`, `repeat` with an array of counts (`Np/Model/AdvIndexFns.lean`) -/
+section advindex
+open Np.Shape Np.ShapeFns Np.AdvIndexFns
+
+/-- `a[i0, ..., ik-1]` with integer arrays: the index arrays broadcast to `B`, the result has shape `B ++ rest`, and
+output multi-index `b ++ rest` reads the operand at `[i0[b], ..., ik-1[b]] ++ rest` (negative entries counted from the
+end), a valid position -/
+theorem advanced_index_reads {shape : List Nat} {ixs : List Ix} {out idx : List Nat}
+    (h : advIndexF shape ixs = some (out, idx)) :
+    ∃ B, bshapeAll (ixs.map (·.1)) = some B ∧ (∀ ix ∈ ixs, BcastTo ix.1 B) ∧ ixs.length ≤ shape.length ∧
+      out = B ++ shape.drop ixs.length ∧
+      ∀ b rest, Valid B b → Valid (shape.drop ixs.length) rest →
+        idx[ravel out (b ++ rest)]? =
+          some (ravel shape (List.zipWith (fun n ix => ixAt n ix b) shape ixs ++ rest)) ∧
+        Valid shape (List.zipWith (fun n ix => ixAt n ix b) shape ixs ++ rest) ∧
+        advOK true shape ixs = true := advIndexF_spec h
+
+/-- numpy's rule for advanced indices *separated* by a slice, `a[i0, :, i2]` on a 3-d operand: the broadcast axes come
+first, then the sliced axis -/
+theorem separated_advanced_index_reads {n0 n1 n2 : Nat} {i0 i2 : Ix} {out idx : List Nat}
+    (h : mixedIndexF [n0, n1, n2] [some i0, none, some i2] = some (out, idx)) :
+    ∃ B, bshapeAll [i0.1, i2.1] = some B ∧ BcastTo i0.1 B ∧ BcastTo i2.1 B ∧ out = B ++ [n1] ∧
+      ∀ b x, Valid B b → x < n1 →
+        idx[ravel out (b ++ [x])]? = some (ravel [n0, n1, n2] [ixAt n0 i0 b, x, ixAt n2 i2 b]) ∧
+        ixAt n0 i0 b < n0 ∧ ixAt n2 i2 b < n2 := mixedIndexF_separated h
+
+/-- `numpy.take(a, indices, axis)` and `numpy.repeat(a, counts, axis)` -/
+theorem take_reads {shape : List Nat} {ix : Ix} {axis : Nat} {out idx : List Nat}
+    (h : takeF shape ix axis = some (out, idx)) :
+    axis < shape.length ∧ out = shape.take axis ++ ix.1 ++ shape.drop (axis + 1) ∧
+    ∀ pre b post, Valid (shape.take axis) pre → Valid ix.1 b → Valid (shape.drop (axis + 1)) post →
+      idx[ravel out (pre ++ b ++ post)]? =
+        some (ravel shape (pre ++ normAt (shape.getD axis 0) (ix.2.getD (ravel ix.1 b) 0) :: post)) ∧
+      Valid shape (pre ++ normAt (shape.getD axis 0) (ix.2.getD (ravel ix.1 b) 0) :: post) ∧
+      ixOK true (shape.getD axis 0) ix = true := takeF_spec h
+theorem repeat_counts_reads {shape reps out idx : List Nat} {axis : Nat}
+    (h : repeatsF shape reps axis = some (out, idx)) {j : List Nat} (hj : Valid out j) :
+    ∃ r t q, r = effReps (shape.getD axis 0) reps ∧ r.length = shape.getD axis 0 ∧
+      idx[ravel out j]? = some (ravel shape (j.set axis t)) ∧ Valid shape (j.set axis t) ∧
+      t < r.length ∧ q < r.getD t 0 ∧ j.getD axis 0 = (r.take t).sum + q := repeatsF_spec h hj
+end advindex
 
 end Np.Props.C09
